@@ -140,7 +140,8 @@ def sub_batches(batch, rng):
         b = list(batch)
         b[i] = 1
         return b
-    return batch[1:] if len(batch) > 1 else batch
+    # drop leading dimensions - possibly all of them (a plain non-batch term next to batched ones)
+    return batch[rng.randint(1, len(batch)):]
 
 
 class OpClass:
